@@ -60,9 +60,9 @@ def _points_part(run, rng, lines, meta, thorough):
             if 1 <= d <= 8:
                 mats.append(m)
         rng.shuffle(mats)
-        mats = mats[:4000]
-        mats += [_random_smat(rng) for _ in range(600)]
-        mats += [_random_smat(rng, lim=5, max_det=40) for _ in range(200)]
+        mats = mats[:30000]
+        mats += [_random_smat(rng) for _ in range(1500)]
+        mats += [_random_smat(rng, lim=5, max_det=40) for _ in range(500)]
     else:
         mats = gen.supercell_matrices(rng, max_det=8, count=90)
         mats += [_random_smat(rng) for _ in range(50)]
@@ -194,8 +194,8 @@ def _transform_part(run, rng, lines, meta, thorough):
     names = ["sc", "cscl", "nacl_prim", "zincblende_prim", "hcp", "bcc", "bct", "triclinic", "mono_P", "rhombo", "fcc"]
     if thorough:
         names += ["wurtzite", "perovskite", "rutile", "ortho_C", "nacl"]
-    ncases = 120 if thorough else 24
-    nmax = 32 if thorough else 16
+    ncases = 300 if thorough else 24
+    nmax = 40 if thorough else 16
     made = attempts = 0
     while made < ncases and attempts < 20 * ncases:
         attempts += 1
@@ -349,13 +349,13 @@ def _cmp(model, impl):
 # part C: ph2ph
 # ------------------------------------------------------------------------------------------
 
-def _ph2ph_part(run, rng, thorough):
+def _ph2ph_part(run, rng, thorough, lines, meta):
     from phonopy.harmonic.dynmat_to_fc import get_commensurate_points
 
     polar = ["nacl_prim", "zincblende_prim", "cscl"]
     other = ["sc", "hcp", "bcc", "triclinic"]
     factors = [np.diag([2, 1, 1]), np.diag([1, 2, 1]), np.diag([1, 1, 2]), np.array([[1, 1, 0], [0, 2, 0], [0, 0, 1]]), np.diag([2, 2, 1]), np.array([[1, 0, 0], [0, 1, 1], [0, -1, 1]])]
-    ncases = 40 if thorough else 8
+    ncases = 90 if thorough else 8
     for c in range(ncases):
         nac = c % 2 == 1
         name = rng.choice(polar if nac else polar + other)
@@ -396,6 +396,51 @@ def _ph2ph_part(run, rng, thorough):
         ph2 = ph.ph2ph(smat2, with_nac=nac)
         if ph2.nac_params is not None:
             ph2.nac_params = None
+        # correspondence: the target force constants are the modelled inverse transform (target tables, target
+        # commensurate points) of the source object's matrices (with NAC when with_nac) at those points
+        prim2, sc2 = ph2.primitive, ph2.supercell
+        if len(sc2) <= (48 if thorough else 36):
+            smat2_p = np.rint(np.linalg.inv(prim2.primitive_matrix)).astype(int)
+            cp2 = get_commensurate_points(smat2_p)
+            ph.run_qpoints(cp2, with_dynamical_matrices=True)
+            dsrc = np.array(ph.get_qpoints_dict()["dynamical_matrices"])
+            svecs2, multi2 = U.dense_svecs(prim2)
+            tl2 = U.tables_line(*gen.compact_tables(ph2))
+            ph_lines2 = " ".join(U.phases_line(qv, svecs2, multi2, -1) for qv in cp2)
+            fc2 = np.array(ph2.force_constants)
+            op = "d2ffull" if fc2.shape[0] == fc2.shape[1] else "d2f"
+            lines.append("%s %s %d %s %s %s" % (op, tl2, len(cp2), U.flat(U.mass_sqrt(prim2.masses)), U.flat_complex(dsrc), ph_lines2))
+            meta.append(("ph2ph-fc%s" % ("-nac-" + method if nac else ""), info, lambda line, fc2=fc2: _cmp(U.parse_rats(line, fc2.shape), fc2)))
+            # hypotheses of ph2ph_preserves_at on the implementation: Hermitian, and for the list's representative
+            # q'' = -q + G0 of -q:  D(q'')[i,j] = psi(q'',j,i) psi(q,j,i) conj D(q)[i,j],  psi(q,j,i) = e_q(svec(p2s j, i))
+            K2 = _canon_points(cp2, len(cp2))
+            herm = float(np.abs(dsrc - dsrc.conj().transpose(0, 2, 1)).max())
+            trdev = trdev_src = 0.0
+            if K2 is not None:
+                n2 = len(cp2)
+                npa2 = len(prim2)
+                p2s2 = np.array(prim2.p2s_map, dtype=int)
+                idx = {tuple(k): i for i, k in enumerate(K2)}
+                Ksrc = _canon_points(cp, len(cp))
+                src_set = set() if Ksrc is None else {tuple(((k * n2) // len(cp)) % n2) for k in Ksrc} if n2 % len(cp) == 0 else set()
+                for i, k in enumerate(K2):
+                    j = idx.get(tuple((-k) % n2))
+                    if j is None:
+                        continue
+                    G0 = cp2[j] + cp2[i]
+                    dev = 0.0
+                    for a in range(npa2):
+                        for b in range(npa2):
+                            r0 = svecs2[multi2[p2s2[b], a, 1]]
+                            gam = np.exp(2j * np.pi * float(G0 @ r0))
+                            dev = max(dev, float(np.abs(dsrc[j][3 * a:3 * a + 3, 3 * b:3 * b + 3] - gam * dsrc[i][3 * a:3 * a + 3, 3 * b:3 * b + 3].conj()).max()))
+                    trdev = max(trdev, dev)
+                    if tuple(k) in src_set:
+                        trdev_src = max(trdev_src, dev)
+            sc0 = max(1.0, float(np.abs(dsrc).max()))
+            fmt = lambda x: "exact" if x < 1e-11 * sc0 else "to 1e%d" % int(np.ceil(np.log10(x / sc0)))
+            run.count("ph2ph hypotheses on the source matrices%s: Hermitian %s; time reversal up to the zone factor: %s at source-commensurate points, %s at all target points" % (
+                (" [%s]" % method if nac else ""), fmt(herm), fmt(trdev_src), fmt(trdev)), section="oracle")
         ph2.run_qpoints(cp, with_dynamical_matrices=True)
         d1 = np.array(ph2.get_qpoints_dict()["dynamical_matrices"])
         sc = max(1.0, float(np.abs(d0).max()))
@@ -437,8 +482,7 @@ def main(run):
     lines, meta = [], []
     _points_part(run, rng, lines, meta, thorough)
     _transform_part(run, rng, lines, meta, thorough)
-    _ph2ph_part(run, rng, thorough)
-
+    _ph2ph_part(run, rng, thorough, lines, meta)
     out = common.lean_run_driver("C06", lines)
     if len(out) != len(lines):
         run.broke("correspondence", "driver answered %d lines for %d requests" % (len(out), len(lines)))
